@@ -407,3 +407,23 @@ func propagateSymSets(e *bsetEngine, fn *ssa.Function, start *ssa.BasicBlock, sy
 	}
 	return out
 }
+
+func init() {
+	addControls(
+		Control{Name: "isASCIIControl-without-DEL", Props: []string{"C15"}, File: "parse.go",
+			Old: "return c <= 0x1f || c == 0x7f", New: "return c <= 0x1f", Expect: "BSET/isASCIIControl"},
+		Control{Name: "isHex-upper-bound", Props: []string{"C15"}, File: "html_renderer.go",
+			Old: "'A' <= c && c <= 'F'", New: "'A' <= c && c <= 'f'", Expect: "BSET/isHex"},
+		Control{Name: "punctuation-drops-Pc", Props: []string{"C15"}, File: "parse.go",
+			Old: "unicode.In(c, unicode.Pc, unicode.Pd,", New: "unicode.In(c, unicode.Pd,", Expect: "BSET/isUnicodePunctuation"},
+		Control{Name: "safeSet-gains-backslash", Props: []string{"C15"}, File: "html_renderer.go",
+			Old: "const safeSet = `;/?:@&=+$,-_.!~*'()#`", New: "const safeSet = `;/?:@&=+$,-_.!~*'()#\\|`", Expect: "URI-SAFESET"},
+		Control{Name: "uri-verbatim-nonascii-letters", Props: []string{"C15"}, File: "html_renderer.go",
+			Old: "case (c < 0x80 && (isASCIILetter(byte(c)) || isASCIIDigit(byte(c)))) || strings.ContainsRune(safeSet, c):",
+			New: "case isASCIILetter(byte(c)) || isASCIIDigit(byte(c)) || strings.ContainsRune(safeSet, c):", Expect: "URI-SAFESET"},
+		Control{Name: "neg-isASCIIDigit-as-switch", Props: []string{"C15"}, File: "parse.go", Negative: true,
+			Old: "return '0' <= c && c <= '9'", New: "switch {\n\tcase c < '0':\n\t\treturn false\n\tcase c > '9':\n\t\treturn false\n\t}\n\treturn true"},
+		Control{Name: "neg-isHex-via-IndexByte", Props: []string{"C15"}, File: "html_renderer.go", Negative: true,
+			Old: "return 'a' <= c && c <= 'f' || 'A' <= c && c <= 'F' || isASCIIDigit(c)", New: "return strings.IndexByte(\"0123456789abcdefABCDEF\", c) >= 0"},
+	)
+}
